@@ -41,6 +41,34 @@ Theorem C04_calls_return_bounded : forall acts s s' c x,
 Proof. exact (fun acts s s' c x => calls_return_bounded gen_cfg gen_cfg_guarded acts s s' c x). Qed.
 Print Assumptions C04_calls_return_bounded.
 
+(** Liveness proper, under the standard weak-fairness assumption on the
+    scheduler (again and again the caller is finished, or not enabled, or
+    takes a step): in every infinite schedule from a state with serveDone
+    closed, every caller's call returns -- and closeAll closes the front
+    connection.  Actions that are not enabled when scheduled are skipped. *)
+Theorem C04_fair_caller_finishes : forall sched s0 c x,
+  serve s0 = SDone -> getc c (callers s0) = Some x -> fair gen_cfg sched s0 c ->
+  exists n, caller_finished (run_n gen_cfg sched s0 n) c = true.
+Proof. exact (fair_caller_finishes gen_cfg gen_cfg_guarded). Qed.
+Print Assumptions C04_fair_caller_finishes.
+
+(** From the loss of the connection to serveDone: once the reader has posted
+    its error (or serve has left its loop), at most three steps of serve
+    itself, always enabled, close serveDone ... *)
+Theorem C04_serve_exit_completes : forall s,
+  (serve s = SRun -> readerr s = true) ->
+  exists acts s', exec gen_cfg s acts = Some s' /\ serve s' = SDone /\ (List.length acts <= 3)%nat.
+Proof. exact (serve_exit_completes gen_cfg). Qed.
+Print Assumptions C04_serve_exit_completes.
+
+(** ... and no other thread can take them away. *)
+Theorem C04_serve_exit_stable : forall s a s',
+  step gen_cfg s a = Some s' ->
+  a <> AReadErrS -> a <> AFail -> a <> ACloseDone -> (forall ok, a <> ATake ok) ->
+  serve s' = serve s /\ (readerr s = true -> readerr s' = true).
+Proof. exact (serve_exit_stable gen_cfg). Qed.
+Print Assumptions C04_serve_exit_stable.
+
 (** The reader goroutine is not left inside handleMessage either. *)
 Theorem C04_no_stranded_reader : forall s,
   serve s = SDone -> reader s <> RExit -> reader_enabled gen_cfg s = true.
